@@ -27,7 +27,7 @@ INFO = dict(
   stubs=['as C01; connect outcome is a function of the virtual time of the attempt'],
   assumptions=['A1-A4'],
 )
-EXPECT_COVERS = ['T:down-at-first-connect', 'M:down-at-first-connect', 'T:dies-later', 'M:dies-later', 'T:fail-fast', 'M:fail-fast',
+EXPECT_COVERS = ['T:closed-during-connect-attempt', 'M:closed-during-connect-attempt', 'T:down-at-first-connect', 'M:down-at-first-connect', 'T:dies-later', 'M:dies-later', 'T:fail-fast', 'M:fail-fast',
                  'T:recovered', 'M:recovered', 'T:closed-while-down', 'M:closed-while-down']
 
 
@@ -36,6 +36,7 @@ def jobs(tier):
   for k in ('T', 'M'):
     js.append(dict(name='%s-outage' % k, stack=k, sc='outage', maxdur=40 if tier == 'quick' else 100, cost=3000, shards=16, shard_depth=4))
     js.append(dict(name='%s-close-while-down' % k, stack=k, sc='close', cost=500, shards=4, shard_depth=2))
+    js.append(dict(name='%s-close-during-connect' % k, stack=k, sc='closeconn', cost=500, shards=4, shard_depth=2))
   return js
 
 
@@ -49,10 +50,12 @@ def make_body(job):
     u1 = u0 + dur
     t_base = vtime.now()
     script = netm.Script(plan=lambda i, p: ('reply', 0))
+    # slow connects: during the outage a connect attempt takes a (symbolic) while before it is refused
+    slow = fresh_real('refusal_takes', 0, 8) if sc == 'closeconn' else 0
     def conn(kk, t):
       rel = t - t_base
       return 'refuse' if bool(sand(rel >= u0, rel < u1)) else 'ok'
-    ep = e.net.endpoint('a', 1, peer=lambda s: peer_cls(k)(s, script), connect=conn, connect_delay=0)
+    ep = e.net.endpoint('a', 1, peer=lambda s: peer_cls(k)(s, script), connect=conn, connect_delay=(lambda kk: slow) if sc == 'closeconn' else 0)
     c = client(k, 'tcp://a:1', 5, open_timeout=0)
     cover(k + (':down-at-first-connect' if first else ':dies-later'))
     if not first:
@@ -104,6 +107,9 @@ def make_body(job):
       tc = fresh_real('close_at', 0, 50)
       gevent.sleep(tc)
       if bool(sand(tc > u0, tc < u1)): cover(k + ':closed-while-down')
+      if sc == 'closeconn':
+        inflight = [t for t in ep.attempts if bool(sand(t <= vtime.now(), vtime.now() < t + slow))]
+        if inflight: cover(k + ':closed-during-connect-attempt')
       c.DispatcherClose()
       t_close = vtime.now()
       gevent.sleep(150)
